@@ -116,6 +116,7 @@ type VulnSpec struct {
 	Sev        []int `json:",omitempty"` // indices into SevTable: the record's severities …
 	SevInAff   bool  `json:",omitempty"` // … written on the affected[] entry instead of the top level
 	Also       string `json:",omitempty"` // a second package the record affects (same ranges): one vulnerability, two packages
+	AliasOf    []string `json:",omitempty"` // further aliases of the record: ids of OTHER records (alias-linked advisories) or ids nothing has
 }
 
 // SevTable / SevTenths: CVSS vectors and round(10 * published base score); -1000 = not a CVSS vector (skipped by the filter).
